@@ -110,12 +110,48 @@ fn main() {
         lines.iter().map(|g| g.gallina()).collect::<Vec<_>>().join("\n"),
     );
 
+    // ---- second stream (implementation only): tokens over the whole language (C04 generator:
+    // all term types, nested collections, expressions, closures, scopes, third-party blocks);
+    // after every step the in-memory token, the token re-read from its bytes and the unverified
+    // reading must print the same sources, expose the same symbols and keys and authorize alike
+    let rich_n = arg_u64("--rich", if thorough { 3000 } else { 300 });
+    let mut rich_differs: Vec<String> = vec![];
+    let mut rich_hist: BTreeMap<String, u64> = BTreeMap::new();
+    {
+        use verif_harness::auth::{self, AGen};
+        use verif_harness::datalog::DGen;
+        let mut rrng = Rng::new(seed ^ 0x1212);
+        let akeys = auth::make_keys(&mut rrng);
+        for jx in 0..rich_n {
+            let mut g = AGen { d: DGen { rng: rrng.fork(), risky: jx % 2 == 0 }, nblocks: 0 };
+            let nb = 1 + g.d.rng.below(4) as usize;
+            let blocks: Vec<auth::ABlock> = (0..nb).map(|i| g.block(i)).collect();
+            let a = g.authorizer();
+            let r = std::panic::catch_unwind(std::panic::AssertUnwindSafe(|| rich_token_case(&blocks, &a, &akeys, &mut rrng, jx % 3 == 0)));
+            let verdict = match r {
+                Ok(Ok(class)) => class,
+                Ok(Err(what)) => {
+                    if rich_differs.len() < 20 {
+                        rich_differs.push(format!("rich token {} (seed {}): {}", jx, seed, what));
+                    }
+                    "differs".to_string()
+                }
+                Err(_) => {
+                    if rich_differs.len() < 20 {
+                        rich_differs.push(format!("rich token {} (seed {}): panicked", jx, seed));
+                    }
+                    "panicked".to_string()
+                }
+            };
+            *rich_hist.entry(verdict).or_default() += 1;
+        }
+    }
     let j = |m: &BTreeMap<String, u64>| m.iter().map(|(k, v)| format!("{}: {}", jstr(k), v)).collect::<Vec<_>>().join(", ");
     let oph: BTreeMap<String, u64> = ophist.iter().map(|(k, v)| (k.to_string(), *v)).collect();
     let lenh: BTreeMap<String, u64> = lenhist.iter().map(|(k, v)| (k.to_string(), *v)).collect();
     let files_s: Vec<String> = files.iter().chain(kfiles.iter()).map(|p| jstr(p)).collect();
     println!(
-        "{{\"family\": \"symbols\", \"evaluations\": {}, \"corpus\": {}, \"random_histories\": {}, \"steps_observed\": {}, \"distinct_nontrivial\": {}, \"histories_with_third_party_block_declaring_keys\": {}, \"hand_made_blocks_refused\": {}, \"operation_histogram\": {{{}}}, \"operation_error_histogram\": {{{}}}, \"history_length_histogram\": {{{}}}, \"roundtrip_differs_count\": {}, \"roundtrip_differs\": {:?}, \"overlap_accepted\": {:?}, \"author_mismatch\": {:?}, \"panics\": {:?}, \"samples\": [{}], \"kernel_sample\": {}, \"files\": [{}]}}",
+        "{{\"family\": \"symbols\", \"evaluations\": {}, \"corpus\": {}, \"random_histories\": {}, \"steps_observed\": {}, \"distinct_nontrivial\": {}, \"histories_with_third_party_block_declaring_keys\": {}, \"hand_made_blocks_refused\": {}, \"operation_histogram\": {{{}}}, \"operation_error_histogram\": {{{}}}, \"history_length_histogram\": {{{}}}, \"roundtrip_differs_count\": {}, \"roundtrip_differs\": {:?}, \"overlap_accepted\": {:?}, \"author_mismatch\": {:?}, \"panics\": {:?}, \"rich_tokens\": {}, \"rich_histogram\": {{{}}}, \"rich_differs\": [{}], \"samples\": [{}], \"kernel_sample\": {}, \"files\": [{}]}}",
         hs.len(),
         n_corpus,
         n,
@@ -131,8 +167,134 @@ fn main() {
         &overlap_accepted[..overlap_accepted.len().min(200)],
         &author_mismatch[..author_mismatch.len().min(200)],
         panics,
+        rich_n,
+        j(&rich_hist),
+        rich_differs.iter().map(|s| jstr(s)).collect::<Vec<_>>().join(", "),
         samples.iter().map(|s| jstr(s)).collect::<Vec<_>>().join(", "),
         sample.len(),
         files_s.join(", ")
     );
+}
+
+/// what a verified token shows, block by block
+fn rich_show(b: &biscuit_auth::Biscuit) -> Vec<String> {
+    (0..b.block_count())
+        .map(|i| {
+            format!(
+                "source {:?} symbols {:?} keys {:?} external {:?} version {:?}",
+                b.print_block_source(i).map_err(|e| format!("{:?}", e)),
+                b.block_symbols(i).map_err(|e| format!("{:?}", e)),
+                b.block_public_keys(i).map(|pk| pk.into_inner().iter().map(|k| k.print()).collect::<Vec<_>>()).map_err(|e| format!("{:?}", e)),
+                b.block_external_key(i).map(|k| k.map(|k| k.print())).map_err(|e| format!("{:?}", e)),
+                b.block_version(i).map_err(|e| format!("{:?}", e)),
+            )
+        })
+        .collect()
+}
+/// what both token types expose: printed source, version, external key, revocation id
+fn rich_show_common(b: &biscuit_auth::Biscuit) -> Vec<String> {
+    let ext = b.external_public_keys();
+    let rev = b.revocation_identifiers();
+    (0..b.block_count())
+        .map(|i| {
+            format!(
+                "source {:?} version {:?} external {:?} revocation {:?}",
+                b.print_block_source(i).map_err(|e| format!("{:?}", e)),
+                b.block_version(i).map_err(|e| format!("{:?}", e)),
+                ext.get(i).map(|k| k.map(|k| k.print())),
+                rev.get(i).map(hex::encode),
+            )
+        })
+        .collect()
+}
+fn rich_show_u(u: &biscuit_auth::UnverifiedBiscuit) -> Vec<String> {
+    let ext = u.external_public_keys();
+    let rev = u.revocation_identifiers();
+    (0..u.block_count())
+        .map(|i| {
+            format!(
+                "source {:?} version {:?} external {:?} revocation {:?}",
+                u.print_block_source(i).map_err(|e| format!("{:?}", e)),
+                u.block_version(i).map_err(|e| format!("{:?}", e)),
+                ext.get(i).map(|k| k.map(|k| k.print())),
+                rev.get(i).map(hex::encode),
+            )
+        })
+        .collect()
+}
+
+fn rich_authorize(
+    t: &biscuit_auth::Biscuit,
+    a: &verif_harness::auth::AAuth,
+    keys: &verif_harness::auth::Keys,
+) -> Result<(verif_harness::auth::Outcome, Option<Vec<verif_harness::datalog::DFact>>), String> {
+    use verif_harness::auth;
+    let ab = auth::build_authorizer(a, keys, (100_000, 2000)).map_err(|e| format!("authorizer refused: {:?}", e))?;
+    let mut az = match ab.build(t) {
+        Ok(x) => x,
+        Err(e) => return Ok((auth::Outcome::Other(format!("load: {:?}", e)), None)),
+    };
+    let o = auth::outcome_of(&az.authorize());
+    let clean = !matches!(o, auth::Outcome::Exec | auth::Outcome::Limit(_) | auth::Outcome::Other(_) | auth::Outcome::Panic);
+    Ok((o, if clean { auth::world_facts(&az) } else { None }))
+}
+
+fn rich_token_case(
+    blocks: &[verif_harness::auth::ABlock],
+    a: &verif_harness::auth::AAuth,
+    keys: &verif_harness::auth::Keys,
+    rng: &mut Rng,
+    seal: bool,
+) -> Result<String, String> {
+    use verif_harness::auth;
+    let mut steps = match auth::build_token_steps(blocks, keys, rng) {
+        Ok(s) => s,
+        Err(_) => return Ok("token refused by the builders".into()),
+    };
+    if seal {
+        if let Some(last) = steps.last() {
+            steps.push(last.seal().map_err(|e| format!("seal: {:?}", e))?);
+        }
+    }
+    let mut c11 = false;
+    for (n, mem) in steps.iter().enumerate() {
+        let bytes = mem.to_vec().map_err(|e| format!("step {}: to_vec: {:?}", n, e))?;
+        let rel = biscuit_auth::Biscuit::from(&bytes, keys.root.public())
+            .map_err(|e| format!("step {}: the library refuses the bytes it produced: {:?}", n, e))?;
+        let unv = biscuit_auth::UnverifiedBiscuit::from(&bytes)
+            .map_err(|e| format!("step {}: UnverifiedBiscuit::from refuses the bytes the library produced: {:?}", n, e))?;
+        let (sm, sr, su) = (rich_show(mem), rich_show(&rel), rich_show_u(&unv));
+        if sm != sr {
+            return Err(format!("step {}: the in-memory token and the token re-read from its bytes differ\n--- in memory\n{:#?}\n--- re-read\n{:#?}", n, sm, sr));
+        }
+        let (sc, su) = (rich_show_common(&rel), su);
+        if sc != su {
+            return Err(format!("step {}: Biscuit and UnverifiedBiscuit read the same bytes differently\n--- Biscuit\n{:#?}\n--- UnverifiedBiscuit\n{:#?}", n, sc, su));
+        }
+        if rel.to_vec().ok() != Some(bytes.clone()) {
+            return Err(format!("step {}: re-serializing the re-read token gives other bytes", n));
+        }
+        let (om, fm) = rich_authorize(mem, a, keys)?;
+        let (or, fr) = rich_authorize(&rel, a, keys)?;
+        if om != or {
+            // C11's known class: a deciding and an erroring binding met in hash order
+            let exec = |x: &auth::Outcome| matches!(x, auth::Outcome::Exec);
+            let mut explained = false;
+            if exec(&om) != exec(&or) {
+                for _ in 0..24 {
+                    if rich_authorize(mem, a, keys)?.0 == or {
+                        explained = true;
+                        break;
+                    }
+                }
+            }
+            if !explained {
+                return Err(format!("step {}: authorize() gives {:?} on the in-memory token and {:?} on the token re-read from its bytes\n{:#?}", n, om, or, sm));
+            }
+            c11 = true;
+        } else if fm.is_some() && fr.is_some() && fm != fr {
+            return Err(format!("step {}: the facts after authorize() differ between the in-memory token and the re-read one\n{:?}\n{:?}", n, fm, fr));
+        }
+    }
+    Ok(format!("{} steps agree{}", steps.len(), if c11 { " (one C11-class outcome)" } else { "" }))
 }
